@@ -20,7 +20,7 @@ const (
 	keyName   = "k."
 	goodKey   = "c2VjcmV0LXNlY3JldC1zZWNyZXQ="
 	wrongKey  = "d3Jvbmctd3Jvbmctd3Jvbmctd3Jvbmc="
-	waitLimit = 20 * time.Second
+	waitLimit = 10 * time.Second
 )
 
 // names of durations (Writer.tla speaks of durations by name only)
@@ -65,7 +65,11 @@ type run struct {
 var (
 	hookMu  sync.Mutex
 	current *run
+	hangs   int // scripts on which the server did not reach the awaited point
 )
+
+// tooManyHangs: every further script would cost another time-out and say the same
+func tooManyHangs() bool { return hangs >= 3 }
 
 // installHook routes the server's verification events of the current run to its signal channel.
 func installHook() {
@@ -382,7 +386,8 @@ func runScript(sc *Script, sum *hx.Summary) []Event {
 	}
 
 	hang := func(what string) {
-		sum.Mis("writer/hang:"+what+":"+trclass(sc.Tr), "the server did not reach the awaited point within 20 s: "+what, brief(sc))
+		hangs++
+		sum.Mis("writer/hang:"+what+":"+trclass(sc.Tr), "the server did not reach the awaited point within 10 s: "+what, brief(sc))
 	}
 	gone := false
 	if stream(sc.Tr) {
@@ -479,12 +484,14 @@ func runScript(sc *Script, sum *hx.Summary) []Event {
 	select {
 	case <-sd:
 	case <-time.After(waitLimit):
-		hx.Die("Shutdown did not return (script %s)", js(brief(sc)))
+		hang("shutdown")
+		return evs
 	}
 	select {
 	case <-done:
 	case <-time.After(waitLimit):
-		hx.Die("ActivateAndServe did not return (script %s)", js(brief(sc)))
+		hang("serve-return")
+		return evs
 	}
 	hookMu.Lock()
 	current = nil
